@@ -126,7 +126,12 @@ ElemAttributeSet::startElement(StylesheetExecutionContext& executionContext) con
 {
     ElemUse::startElement(executionContext);
 
-    executionContext.pushCurrentStackFrameIndex(executionContext.getGlobalStackFrameIndex());
+    // Only top-level variables and params are visible in an attribute set
+    // (XSLT 1.0, section 7.1.4).  A context marker hides the bindings of the
+    // instruction that uses the set, and, unlike moving the current stack
+    // frame index down to the global frame, lets the variables and params
+    // that are pushed while the attributes are instantiated be found.
+    executionContext.pushContextMarker();
     executionContext.pushOnElementRecursionStack(this);
 
     return getFirstChildElemToExecute(executionContext);
@@ -138,7 +143,7 @@ void
 ElemAttributeSet::endElement(StylesheetExecutionContext& executionContext) const
 {
     executionContext.popElementRecursionStack();
-    executionContext.popCurrentStackFrameIndex();
+    executionContext.popContextMarker();
 
     ElemUse::endElement(executionContext);
 }
